@@ -18,7 +18,7 @@ ASSUMPTIONS = [
     'np.log / np.exp / scipy.special.softmax / logsumexp are modelled in the log domain: log(p) is a tagged value, exp(log p + t) = p*Exp(t), Exp uninterpreted positive monotone',
     'placements are a superset of the reachable states (reachability uses JSON-encoded sets and is not executed symbolically)',
 ]
-OUTSIDE = ['layouts larger than 3x3 / more than two agents', 'probabilistic collisions (not implemented in the repository)', 'rounding']
+OUTSIDE = ['layouts larger than 3x3 (quick) / 4x2 (thorough), more than two agents', 'collision probabilities other than the two the constructor accepts (None, 1/2)', 'rounding / overflow of exp']
 
 LAYOUTS = [
     ("corridor-private-goals", "A0 G1 G0 A1"),
@@ -43,7 +43,7 @@ def bounds(tier):
 MOVES = [(0, 0), (1, 0), (-1, 0), (0, 1), (0, -1)]
 
 
-def transitions(sx, layout, warm=None):
+def transitions(sx, layout, warm=None, collision_half=False):
     """warm: ANOTHER game (different obstacles / walls / fences, same size) is built first and asked about the same placement and
     joint action; each game object answers for its own board"""
     from msdm.domains.gridgame.tabulargridgame import TabularGridGame, TERMINALSTATE
@@ -53,7 +53,8 @@ def transitions(sx, layout, warm=None):
     if not has_fence:
         sx.real('unused', 0, 1)
     with facade(sx):
-        gg = TabularGridGame(gs, fence_success_prob=fsp)
+        # collision_half: the only other accepted collision setting (colliding agents: one of the non-colliding outcomes, not 'nobody moves')
+        gg = TabularGridGame(gs, fence_success_prob=fsp, **({'collision_prob': .5} if collision_half else {}))
         W, Hh = gg.width, gg.height
         x0, y0 = sx.integer('x0', 0, W - 1), sx.integer('y0', 0, Hh - 1)
         x1, y1 = sx.integer('x1', 0, W - 1), sx.integer('y1', 0, Hh - 1)
@@ -183,14 +184,17 @@ def sorted_dict(d):
     return d
 
 
-def factor_mix(sx, tsel):
-    """a*p | b*q over the same variables adds the weights row by row"""
+def factor_mix(sx, tsel, scaled=False):
+    """a*p | b*q over the same variables adds the weights row by row (and renormalises: the scales a, b need not be convex weights)"""
     from msdm.core.distributions import DiscreteFactorTable as Pr
     import copy
     name, R, S_ = TABLES[tsel]
     wp = [sx.real(f"p{i}", 0, 2) for i in range(len(R))]
     wq = [sx.real(f"q{i}", 0, 2) for i in range(len(S_))]
-    a, b = sx.const(F(1, 4)), sx.const(F(3, 4))
+    if scaled:
+        a, b = sx.real('scale_a', 0, 3, lo_open=True), sx.real('scale_b', 0, 3, lo_open=True)
+    else:
+        a, b = sx.const(F(1, 4)), sx.const(F(3, 4))
     for w in wp + wq:
         sx.assume(w > 0)
     sx.assume(ssum(wp) == 1)
@@ -205,18 +209,22 @@ def factor_mix(sx, tsel):
             rows[repr(sorted_dict(r))] = rows.get(repr(sorted_dict(r)), 0) + a * w
         for s_, w in zip(S_, wq):
             rows[repr(sorted_dict(s_))] = rows.get(repr(sorted_dict(s_)), 0) + b * w
+        tot = ssum(rows.values())
         got = {repr(sorted_dict(e)): M.prob(e) for e in M.support}
         for k, w in rows.items():
-            sx.prove_eq(got.get(k, 0), w, 'mixture-adds-weights-row-by-row', tol=F(1, 10**7))
+            sx.prove_eq(got.get(k, 0) * tot, w, 'mixture-adds-weights-row-by-row', tol=F(1, 10**7))
         sx.prove_eq(ssum(got.values()), 1, 'mixture-normalised', tol=F(1, 10**7))
 
 
 def jobs(tier):
-    o = dict(timeout_ms=30000, budget_s=1500, max_paths=40000)
+    o = dict(timeout_ms=15000, budget_s=(300 if tier == 'quick' else 1500), max_paths=40000)
     for i in range(len(LAYOUTS) - (len(THOROUGH_LAYOUTS) if tier == 'quick' else 0)):
         yield ('transitions', dict(layout=i), dict(o, cost=20, twin=3))
+    for i in (1, 2, 4):
+        yield ('transitions', dict(layout=i, collision_half=True), dict(o, cost=20, twin=3))
     yield ('transitions', dict(layout=2, warm=3), dict(o, cost=20, twin=3))
     yield ('transitions', dict(layout=3, warm=2), dict(o, cost=20, twin=3))
     for t in range(len(TABLES)):
         yield ('factor_product', dict(tsel=t), o)
     yield ('factor_mix', dict(tsel=3), o)
+    yield ('factor_mix', dict(tsel=3, scaled=True), o)
